@@ -511,7 +511,7 @@ def run_case(case, rec):
 
 
 def shards(tier):
-    n = 60 if tier == "quick" else 1500
+    n = 400 if tier == "quick" else 6000
     return [{"kind": "hyp", "i": i, "n": n} for i in range(16)]
 
 
